@@ -429,7 +429,7 @@ func c02Random(t *mon.T, d c02Desc, readers []c02Reader) {
 
 func genC02(g *mon.G) {
 	r := gen.Rand(g.Seed)
-	n := g.Pick(20, 150)
+	n := g.Pick(30, 300)
 	for i := 0; i < n; i++ {
 		s := r.Int63()
 		for _, v2 := range []bool{false, true} {
@@ -437,7 +437,7 @@ func genC02(g *mon.G) {
 			g.Emit(c02Desc{Seed: s, V2: v2, Family: "flips", AllBits: g.Thorough()})
 		}
 	}
-	for i := 0; i < g.Pick(40, 600); i++ {
+	for i := 0; i < g.Pick(100, 2000); i++ {
 		g.Emit(c02Desc{Seed: r.Int63(), V2: i%2 == 0, Family: "random"})
 	}
 }
